@@ -1305,6 +1305,33 @@ where
         edge: &EdgeOfFunc<'id, Self>,
         literal_set: &EdgeOfFunc<'id, Self>,
     ) -> AllocResult<EdgeOfFunc<'id, Self>> {
+        /// Remove all literals from `set` which are above level `until`
+        ///
+        /// Unlike [`crate::set_pop()`], this respects negative literals (where
+        /// the remaining literals are in the "false" cofactor) and the tag of
+        /// the incoming edge.
+        #[inline] // tail-recursive
+        fn literal_set_pop<'a, M: Manager<EdgeTag = EdgeTag, Terminal = BCDDTerminal>>(
+            manager: &'a M,
+            set: Borrowed<'a, M::Edge>,
+            until: LevelNo,
+        ) -> Borrowed<'a, M::Edge>
+        where
+            M::InnerNode: HasLevel,
+        {
+            match manager.get_node(&set) {
+                Node::Inner(node) if node.level() < until => {
+                    let (t, e) = collect_cofactors(set.tag(), node);
+                    if is_false(manager, &t) {
+                        literal_set_pop(manager, e, until)
+                    } else {
+                        literal_set_pop(manager, t, until)
+                    }
+                }
+                _ => set,
+            }
+        }
+
         fn inner<M: Manager<EdgeTag = EdgeTag, Terminal = BCDDTerminal>>(
             manager: &M,
             edge: Borrowed<M::Edge>,
@@ -1318,7 +1345,7 @@ where
             };
             let level = node.level();
 
-            let literal_set = crate::set_pop(manager, literal_set, level);
+            let literal_set = literal_set_pop(manager, literal_set, level);
             let (literal_set, c) = match manager.get_node(&literal_set) {
                 Node::Inner(node) if node.level() == level => {
                     let (t, e) = collect_cofactors(literal_set.tag(), node);
